@@ -48,8 +48,20 @@ class Project(object):
             for package in sys.modules:
                 modules.add(package.partition('.')[0])
 
-        for p in path:
-            pdir = os.path.join(p, *root.split('.'))
+        if root:
+            # children of the package the import system would load; the whole
+            # path only for namespace packages and unknown names
+            filename, _ = self._find_module(root)
+            if filename and os.path.basename(filename) == '__init__.py':
+                dirs = [os.path.dirname(filename)]
+            elif filename:
+                dirs = []
+            else:
+                dirs = [os.path.join(p, *root.split('.')) for p in path]
+        else:
+            dirs = path
+
+        for pdir in dirs:
             try:
                 dlist = os.listdir(pdir)
             except OSError:
